@@ -222,9 +222,53 @@ func (p *Program) runtimeErrType() types.Type { return p.errorStringPtr }
 func (m *Machine) concStr(v Value) string {
 	s, ok := v.(string)
 	if !ok {
+		if d, ok := m.degradeNumeral(v); ok {
+			return d
+		}
 		m.engineErr("symbolic string where a concrete one is required")
 	}
 	return s
+}
+
+// numeralBoundaries: the values a numeral string is narrowed to when code under test looks INSIDE the string (length,
+// characters, trimming, slicing), which the opaque numeral term cannot express. Every bound of every integer type and
+// its neighbours, plus a few ordinary values.
+var numeralBoundaries = func() []int64 {
+	out := []int64{0, 1, -1, 7, 42, -42}
+	for _, b := range []uint{7, 8, 15, 16, 31, 32, 62} {
+		p := int64(1) << b
+		out = append(out, p-1, p, p+1, -p-1, -p, -p+1)
+	}
+	return append(out, math.MaxInt64, math.MaxInt64-1, math.MinInt64, math.MinInt64+1)
+}()
+
+// degradeNumeral: v is the decimal numeral of a symbolic integer and the program needs its characters. The integer is
+// narrowed to one of the boundary values (a fork per value, memoised per term so that every use agrees); the run is
+// marked DEGRADED for that input: the verdict then covers those numerals only, which the check reports as a NOTE.
+func (m *Machine) degradeNumeral(v Value) (string, bool) {
+	t, ok := v.(T)
+	if !ok || t.Op != smt.OApp || (t.Name != "numstr" && t.Name != "itoa") || len(t.Args) != 1 {
+		return "", false
+	}
+	if m.numeralOf == nil {
+		m.numeralOf = map[T]string{}
+	}
+	if s, ok := m.numeralOf[t]; ok {
+		return s, true
+	}
+	n := t.Args[0]
+	k := m.choose("numeral", len(numeralBoundaries), nil)
+	val := numeralBoundaries[k]
+	m.assume(m.C.Eq(n, m.C.BVC(uint64(val), n.S.W)))
+	var s string
+	if n.S.W == 64 && t.Name == "numstr" && m.numeralUnsigned[t] {
+		s = strconv.FormatUint(uint64(val), 10)
+	} else {
+		s = strconv.FormatInt(val, 10)
+	}
+	m.numeralOf[t] = s
+	m.Res.Degraded["numeral narrowed to boundary values (the code inspects the string's characters)"]++
+	return s, true
 }
 
 // ---- reflect ----
